@@ -96,8 +96,13 @@ def diff(a, b, path=''):
     return None
 
 
-def first_diff_key(a, b):
-    """Short, value-free name of the first differing component (for violation keys)."""
+def first_diff_key(a, b, ignore=()):
+    """Short, value-free name of the first differing component (for violation keys). Top-level entries named in
+    `ignore` (the harness's own logs, say) are left out of the comparison altogether, so that a tolerated difference
+    cannot hide another one behind it."""
+    if ignore and isinstance(a, dict) and isinstance(b, dict):
+        a = {k: v for k, v in a.items() if k not in ignore and k != 'dictkeys'}
+        b = {k: v for k, v in b.items() if k not in ignore and k != 'dictkeys'}
     p = diff(a, b)
     if p is None:
         return None
